@@ -1,6 +1,6 @@
 (* C18 — property theorems only.  Each is closed by [exact] of a lemma proved in
    C18/Proofs.v or C18/ProofsInst.v and followed by Print Assumptions. *)
-From MV Require Import C18.Model C18.Proofs C18.Instances C18.ProofsInst.
+From MV Require Import C18.Model C18.Proofs C18.Instances C18.ProofsInst gen.Params_C18 C18.ProofsGen.
 
 (* A scenario (constructor / grower / inserter + its destroy) accepted by the
    decidable checker satisfies the property under EVERY fault function, single or
@@ -80,3 +80,32 @@ Theorem channel_init_unchanged_returns_success_on_failed_alloc :
   hit (single 0) (o_att o) = true /\ o_rc o = Ok.
 Proof. exact channel_init_orig_returns_success_on_failed_alloc. Qed.
 Print Assumptions channel_init_unchanged_returns_success_on_failed_alloc.
+
+(* ---- the TRANSLATOR tie: programs regenerated from the C text on every run (gen/Params_C18.v) ---- *)
+
+(* Every init / grow / destroy function in the translator's scope was translated (no unsupported
+   construct, no scenario dropped). *)
+Theorem generated_programs_complete :
+  gen_errors = [] /\ forallb (fun id => existsb (Nat.eqb id) (map fst gen_table)) gen_required = true.
+Proof. exact (conj gen_no_errors gen_all_required). Qed.
+Print Assumptions generated_programs_complete.
+
+(* Every generated scenario (constructor / grower generated from the C text + generated destroy)
+   satisfies the property under EVERY fault function: failure reported, nothing leaked, no double
+   release, safe to destroy, destroy releases all. *)
+Theorem generated_programs_satisfy_property : forall id t f,
+  glookup id gen_table = Some t -> holds (gen_scn t) f.
+Proof. exact generated_hold. Qed.
+Print Assumptions generated_programs_satisfy_property.
+
+(* ... and behaves, for the no-fault run and every single fault (hence, by
+   multi_fault_reduces_to_first, for every fault set), exactly like the hand-written instance that the
+   differential run compares with the implementation (return class, calls attempted, number of live
+   resources after the call and after destroy, crash flags). *)
+Theorem generated_programs_agree_with_instances :
+  forallb (fun p => match inst_by_id (fst p) with
+                    | Some h => agrees (gen_scn (snd p)) h
+                    | None => 200 <=? fst p
+                    end) gen_table = true.
+Proof. exact gen_table_agrees. Qed.
+Print Assumptions generated_programs_agree_with_instances.
